@@ -248,8 +248,12 @@ class ConvexSpheropolyhedron(Shape3D):
         for face, normal in zip(self.polyhedron.faces, self.polyhedron.normals):
             base_vertices = self.polyhedron.vertices[face]
             extruded_vertices = base_vertices + self.radius * normal
+            # Start the prism below the face: a query point lying on the face plane (up
+            # to rounding) must not fall between the core test above and the prism
+            # test. Every point of the added slab is within the radius of the core.
+            inner_vertices = base_vertices - self.radius * normal
             extruded_faces.append(
-                ConvexPolyhedron([*base_vertices, *extruded_vertices])
+                ConvexPolyhedron([*inner_vertices, *extruded_vertices])
             )
 
         # Select the points between the inner polyhedron and extruded space
